@@ -312,9 +312,12 @@ class Compiler:
         :return: The RzIL representation of it.
         """
         ast = self.parser.parse(code)
-        result = self.transformer.transform(ast)
-        self.transformer.reset()
-        return result
+        try:
+            return self.transformer.transform(ast)
+        finally:
+            # Also reset if the transformation failed. Otherwise, the operands and
+            # flags of the failed statement leak into the next compilation.
+            self.transformer.reset()
 
     def compile_insn(self, insn_name: str) -> RZILInstruction:
         return self.transform_insn(insn_name, self.parsed_insns[insn_name])
